@@ -58,6 +58,7 @@ def alphabet():
     ops += [["set_data", 2, w, None, False] for w in (1, 2, 4)]
     ops += [["set_data", 2, 3, ["X"], False], ["set_data", 2, 3, ["X", "X", "Y"], False], ["set_data", 2, 2, ["A", "a", "q", "r", "s"], False],
             ["set_data", 2, 2, [], False]]
+    ops += [["set_data_prop", 2, 3], ["set_data_prop", 2, 1], ["set_data_df", 2, 3, ["X", "Y", "X"]], ["set_data_df", 2, 2, ["DEPT", "Q"]]]
     ops += [["set_data", 2, 4, None, True], ["set_data", 3, 1, ["Z"], True], ["set_data", 0, 2, None, False],
             ["set_data", 2, 0, ["N"], False], ["set_data", 0, 3, None, True]]
     return ops
@@ -101,6 +102,12 @@ def with_values(seq):
         elif k == "set_data":
             rows = [[str(1000 * c + 10 * r + j) for j in range(op[2])] for r in range(op[1])]
             out.append([k, rows, op[3], op[4], [op[1], op[2]]])   # 5th element: the shape, for the real side only
+        elif k == "set_data_prop":      # `las.data = array` is set_data(array)
+            rows = [[str(1000 * c + 10 * r + j) for j in range(op[2])] for r in range(op[1])]
+            out.append(["set_data", rows, None, False, [op[1], op[2]], "prop"])
+        elif k == "set_data_df":        # set_data(DataFrame) is set_data(values incl. the index, names = index name + column labels)
+            rows = [[str(1000 * c + 10 * r + j) for j in range(op[2])] for r in range(op[1])]
+            out.append(["set_data", rows, list(op[3]), False, [op[1], op[2]], "df"])
         else:
             out.append(list(op))
     return out
@@ -209,7 +216,15 @@ def apply_real(las, op):
         elif k == "set_data":
             shape = op[4]
             a = np.array([[float(x) for x in r] for r in op[1]], dtype=float).reshape(shape[0], shape[1])
-            las.set_data(a, names=None if op[2] is None else list(op[2]), truncate=op[3])
+            route = op[5] if len(op) > 5 else None
+            if route == "prop":
+                las.data = a
+            elif route == "df":
+                import pandas as pd
+                df = pd.DataFrame(a[:, 1:], columns=list(op[2])[1:], index=pd.Index(a[:, 0], name=op[2][0]))
+                las.set_data(df)
+            else:
+                las.set_data(a, names=None if op[2] is None else list(op[2]), truncate=op[3])
         else:
             raise RuntimeError("unknown op " + k)
         return "ok"
@@ -333,6 +348,17 @@ def oracle_views(run, las, lm, case):
         run.fail("values", case, None)
     if exc(lambda: [[k, cells(v)] for k, v in las.items()]) != [[k, c[4]] for k, c in zip(keys, st)]:
         run.fail("items", case, None)
+    if exc(lambda: [list(las.iterkeys()), [cells(v) for v in las.itervalues()], [[k, cells(v)] for k, v in las.iteritems()]]) != \
+            [keys, [c[4] for c in st], [[k, c[4]] for k, c in zip(keys, st)]]:
+        run.fail("iter-views", case, None)
+    cd = exc(lambda: las.curvesdict)
+    if not isinstance(cd, dict) or any(cd.get(k) is not list.__getitem__(las.curves, len(keys) - 1 - keys[::-1].index(k)) for k in keys):
+        run.fail("curvesdict", case, dict(keys=keys))          # a dict keyed by session mnemonic (the last one wins)
+    for k in sorted(set(keys + ["A", "a", "ZZ"])):
+        got = exc(lambda: las.get_curve(k))
+        want_item = list.__getitem__(las.curves, keys.index(k)) if k in keys else None
+        if got is not want_item:
+            run.fail("get_curve", case, dict(key=k))
     want = st[0][4] if st else "IndexError"
     if exc(lambda: cells(las.index)) != want:
         run.fail("index", case, dict(expected=want))
